@@ -213,6 +213,24 @@ func PermuteMaps(on bool)                            {}
 // PermuteOneMap: exactly one of the map iterations that follow (inside go-ucfg)
 // is enumerated in every non-canonical order; PermuteMaps(false) ends the mode.
 func PermuteOneMap() {}
+// DecoderResult registers the contract result of a decoder for the engine (the
+// real decoder runs natively, so this is a no-op here).
+func DecoderResult(decoder string, v interface{}) {}
+
+// TextBytes is []byte(text) (see the engine intrinsic for opaque text).
+func TextBytes(text string) []byte { return []byte(text) }
+
+// VirtualFile makes content available under name to ReadFile: natively a real
+// file below the temp directory; the returned path is what the loader must be given.
+func VirtualFile(name string, content string) string {
+	p := os.TempDir() + "/" + strings.ReplaceAll(name, "/", "_")
+	if err := os.WriteFile(p, []byte(content), 0o600); err != nil {
+		fmt.Println("REPLAY-ERROR cannot write virtual file:", err)
+		os.Exit(4)
+	}
+	return p
+}
+
 func Note(key string, v interface{})                 { fmt.Printf("NOTE %s = %#v\n", key, v) }
 func Taint()                                         {}
 func Concretize(v interface{}) interface{}           { return v }
